@@ -16,6 +16,7 @@ import Compress.Drv.Wrap
 import Compress.Drv.Bzip2
 import Compress.Drv.WriterApi
 import Compress.Drv.ReaderApi
+import Compress.Drv.MetaReaderApi
 
 open Compress.Util Compress.Drv
 
@@ -63,6 +64,7 @@ def processLine (brotliDict : ByteArray) (line : String) : String :=
       | "mrs" => handleMrs kv
       | "lwm" => handleLwm kv
       | "lrm" => handleLrm kv
+      | "mrm" => handleMrm kv
       | _ => "bad-kind"
     s!"{id} {out}"
 
